@@ -49,6 +49,10 @@ pub enum IOp {
     Delete(usize),
     /// customs+names only: `remove_raw("shared")`
     RemoveRaw,
+    /// exports / imports: delete item #k through the by-name API (`exports.remove(name)`,
+    /// `imports.remove(module, name)`); every export of the model names the same function, so
+    /// they are all aliases of one another
+    RemoveNamed(usize),
 }
 
 pub struct IdObj {
@@ -288,7 +292,7 @@ impl Subject for IdSubject {
                     }
                     live.push(true);
                 }
-                IOp::Delete(k) => live[*k] = false,
+                IOp::Delete(k) | IOp::RemoveNamed(k) => live[*k] = false,
                 IOp::RemoveRaw => {
                     if let Some(k) = (0..live.len()).find(|k| live[*k] && raw[*k]) {
                         live[k] = false;
@@ -300,11 +304,15 @@ impl Subject for IdSubject {
             }
         }
         let nv = if self.coll == "types" || self.coll == "locals" { 3 } else { 2 };
+        let by_name = self.coll == "exports" || self.coll == "imports";
         let mut ops: Vec<IOp> = if self.shared_names { vec![IOp::Add(10), IOp::Add(11), IOp::RemoveRaw] } else { (0..nv).map(IOp::Add).collect() };
         if self.coll != "locals" {
             for (k, l) in live.iter().enumerate() {
                 if *l {
                     ops.push(IOp::Delete(k));
+                    if by_name {
+                        ops.push(IOp::RemoveNamed(k));
+                    }
                 }
             }
         }
@@ -338,6 +346,19 @@ impl Subject for IdSubject {
             IOp::Delete(k) => {
                 let id = o.issued[*k].0;
                 delete(&mut o.m, id);
+                o.issued[*k].1 = None;
+            }
+            IOp::RemoveNamed(k) => {
+                let payload = o.issued[*k].1.clone().unwrap_or_default();
+                let res = if self.coll == "exports" {
+                    o.m.exports.remove(payload.trim_start_matches("export ")).is_ok()
+                } else {
+                    o.m.imports.remove("env", payload.trim_start_matches("import env.")).is_ok()
+                };
+                if !res {
+                    o.findings.push(Finding { sig: format!("remove-by-name-failed:{}", self.coll), detail: format!("removing the live item {:?} by its name returned an error", payload) });
+                }
+                // the reference deletes exactly that item; whatever else happened shows up in the state comparison
                 o.issued[*k].1 = None;
             }
             IOp::RemoveRaw => {
@@ -452,7 +473,7 @@ impl Subject for IdSubject {
 }
 
 fn hist_json(h: &[IOp]) -> serde_json::Value {
-    json!(h.iter().map(|o| match o { IOp::Add(v) => format!("add {}", v), IOp::Delete(k) => format!("delete #{}", k), IOp::RemoveRaw => "remove_raw".to_string() }).collect::<Vec<_>>())
+    json!(h.iter().map(|o| match o { IOp::Add(v) => format!("add {}", v), IOp::Delete(k) => format!("delete #{}", k), IOp::RemoveRaw => "remove_raw".to_string(), IOp::RemoveNamed(k) => format!("remove-named #{}", k) }).collect::<Vec<_>>())
 }
 fn hist_of(v: &serde_json::Value) -> Vec<IOp> {
     v.as_array()
@@ -460,7 +481,9 @@ fn hist_of(v: &serde_json::Value) -> Vec<IOp> {
             a.iter()
                 .filter_map(|x| {
                     let s = x.as_str()?;
-                    if s == "remove_raw" {
+                    if let Some(k) = s.strip_prefix("remove-named #") {
+                        Some(IOp::RemoveNamed(k.parse().ok()?))
+                    } else if s == "remove_raw" {
                         Some(IOp::RemoveRaw)
                     } else if let Some(v) = s.strip_prefix("add ") {
                         Some(IOp::Add(v.parse().ok()?))
